@@ -509,6 +509,11 @@ def time_invalid(quick):
               b'12:30:00x', b'noon', b'12:30:00:', b':12:30:00', b'12::00', b'12:.00', b'1.5:00:00', b'1.5',
               b'12:30:00PM', b'\x0012:30:00', b'12:30:00\x00'):
         vals.add(v)
+    # strings of the length of hh:mm:ss with one of the two separators replaced
+    for sep in (b'-', b'/', b';', b',', b' ', b'x', b'0', b'\x00'):
+        vals.add(b'12:30' + sep + b'00')
+        vals.add(b'12' + sep + b'30:00')
+        vals.add(b'12.30' + sep + b'00')
     vals = sorted(vals)
     # keep only values the reference does not class as plainly valid (those are in time-valid)
     return [v for v in vals if ref_time(v)[0] != 'valid']
